@@ -89,6 +89,23 @@ func newFile(q Qualifier, rule rule) (Rule, error) {
 
 // quoteAARE quotes a path taken from a log when it cannot be written as a bare word.
 func quoteAARE(path string) string {
+	// The characters of a logged name are plain characters: in a rule \ [ ] { }
+	// are pattern syntax and have to be escaped (not the braces of a variable)
+	if strings.ContainsAny(path, `\[]{}`) && !strings.HasPrefix(path, "\"") {
+		escaped := strings.Builder{}
+		for idx := 0; idx < len(path); idx++ {
+			if end := strings.IndexByte(path[idx:], '}'); strings.HasPrefix(path[idx:], "@{") && end != -1 {
+				escaped.WriteString(path[idx : idx+end+1])
+				idx += end
+				continue
+			}
+			if strings.IndexByte(`\[]{}`, path[idx]) != -1 {
+				escaped.WriteByte('\\')
+			}
+			escaped.WriteByte(path[idx])
+		}
+		path = escaped.String()
+	}
 	if strings.ContainsAny(path, " \t!") && !strings.HasPrefix(path, "\"") {
 		return "\"" + path + "\""
 	}
